@@ -5,8 +5,9 @@ Compiler correctness (Props/Refine.lean), part 4: statements.
 `{{ e }}`, `{% set %}` / `{% set_global %}`, `{% if %}` / `{% elif %}` / `{% else %}` (an `elif`
 is an `if` in the else branch), `{% filter %}` sections, `{% set %}` blocks with filter chains,
 and, outside the loop-free core (`lf = false`), `{% for %}` loops (key / value, `{% else %}`,
-nested) with `{% break %}` / `{% continue %}` inside loop bodies (`inLoop = true`), all over
-expressions of `InCore lf` — compiled at any index, from any VM state `st` whose scope, output
+nested) with `{% break %}` / `{% continue %}` inside loop bodies (`inLoop = true`) and
+`{% include %}` of the templates `Inc` (related by `TemplatesRel`), all over expressions of
+`InCore lf` — compiled at any index, from any VM state `st` whose scope, output
 and capture stack correspond to the evaluator's statement state `est` (`StSim`):
 
 * `execNode fuel eenv vm.autoescape est n = .ok (est', sig)` ⟹ the interpreter loop runs from
@@ -19,10 +20,13 @@ and capture stack correspond to the evaluator's statement state `est` (`StSim`):
     - at the compiler's current loop index when `sig` is `cont` (what `continue` compiles to);
 * an error ⟹ a rendering error of the same class; never a panic;
 
-whatever the nested interpreter `rec` is.  Induction on the evaluator's fuel (`NodeSimAt`:
-statements, statement lists, the loop of a `for`), on top of `expr_sim` / `kwargs_sim`.
-Not covered: `include` (the only statement of the fragment that calls the nested interpreter),
-`block`, component calls.
+whatever the nested interpreter `rec` is — except at an `Include`, the only instruction of the
+fragment that calls it: there the run (`RunI` / `FailsI`, Lemmas/RefineRunI.lean) contains a
+complete run of the included template's chunk, obtained from the induction hypothesis at the
+included template's VM and chunk (`NodeSimAll`: the statement for every VM and chunk).  Induction on
+the evaluator's fuel (`NodeSimAt`: statements, statement lists, the loop of a `for`), on top of
+`expr_sim` / `kwargs_sim`.  Not covered: `block`, component calls (the evaluator does not model
+them: `Err.unsupported`).
 -/
 import TeraModel.Lemmas.RefineExpr
 import TeraModel.Lemmas.RefineRunI
@@ -183,7 +187,7 @@ inductive InCoreNode (lf : Bool) (Inc : String → Prop) : Bool → Node → Pro
       InCoreNode lf Inc inLoop (.forLoop key value target body elseBody)
 
 section
-variable (venv : Vm.Env) (vm : VmCtx) (c : Chunk) (lf : Bool)
+variable (venv : Vm.Env) (vm : VmCtx) (c : Chunk) (lf : Bool) (Inc : String → Prop)
 
 /-- where the run of a statement with signal `sig` stops -/
 def SigRun (loop : Option Nat) (sig : Sig) (base len : Nat) (st : State) (tr : List Nat)
@@ -199,7 +203,7 @@ def NodeOutcome (loop : Option Nat) (r : Except Err (Tera.St × Sig)) (base len 
     Prop :=
   match r with
   | .ok (est', sig) => ∃ tr sc', ScopeSim est'.scope sc' ∧ ends sc'.forLoops = ends st.scope.forLoops
-      ∧ SigRunI venv vm c loop sig base len st tr (withSc st est' sc')
+      ∧ SigRun venv vm c loop sig base len st tr (withSc st est' sc')
       ∧ Within base (base + len) tr ∧ (lf = true → tr.length ≤ len)
   | .error err => reportable err = true →
       ∃ tr re, FailsI venv vm c base st tr re ∧ errMatch err re = true
@@ -252,9 +256,27 @@ structure NodeSimAt (fuel : Nat) : Prop where
       (forLoopCode startIdx body).length st
 end
 
+/-- What `{% include %}` needs of the two template tables, for the names `Inc` that may be
+included: the evaluator has the template exactly when the VM has it; the VM's template holds the
+compiled body of the evaluator's AST (`nodesCode 0 none`, embedded) under its own name, with the
+same autoescape flag; and the body is in the core again (with the same `Inc`). -/
+structure TemplatesRel (venv : Vm.Env) (eenv : Tera.Env) (lf : Bool) (Inc : String → Prop) : Prop where
+  rel : ∀ name, Inc name →
+    match eenv.template name with
+    | none => venv.template name = none
+    | some t => ∃ tpl vcode, venv.template name = some tpl ∧ tpl.chunk = ⟨tpl.name, vcode⟩
+        ∧ embed (nodesCode 0 none t.nodes) = some vcode ∧ tpl.autoescape = t.autoescape
+        ∧ (∀ n ∈ t.nodes, InCoreNode lf Inc false n)
+
+/-- the simulation statements at one level of evaluator fuel, for every chunk and every VM that
+renders with the templates' own autoescape flags (as `Tera::render` does) -/
+def NodeSimAll (venv : Vm.Env) (lf : Bool) (Inc : String → Prop) (eenv : Tera.Env) (fuel : Nat) : Prop :=
+  ∀ (vm : VmCtx) (c : Chunk), reportTargetOk venv vm c = true → vm.autoescapeOverride = none →
+    NodeSimAt venv vm c lf Inc eenv fuel
+
 section
 variable {venv : Vm.Env} {vm : VmCtx} {c : Chunk}
-  {eenv : Tera.Env} {lf : Bool}
+  {eenv : Tera.Env} {lf : Bool} {Inc : String → Prop}
 
 /-! ### instructions -/
 
@@ -391,11 +413,13 @@ theorem filters_sim (hE : EnvRel venv eenv) (hB : BuiltinsRel venv eenv)
       | ok kw =>
         rw [hr1] at IHk
         obtain ⟨trK, stk, hrunK, hstk, hwK, hl0⟩ := IHk
+        have hrunK := hrunK.toI
         have hnames := evalKwargs_names eenv sc kwargs fuel kw hr1
         have hd : (kw.map (·.1)).Nodup := by rw [hnames]; exact hnd
         have hlen : kwargs.length = kw.length := by
           have := congrArg List.length hnames; simpa using this.symm
         have hrunB := run_buildKwargs (venv := venv) (vm := vm) hentB (st.push v rv) kw stk hlen hstk
+        have hrunB := hrunB.toI
         have hF := filter_sim hentF hB ht st v rv kw
           (base + (kwargsCode base loop kwargs).length, base + (kwargsCode base loop kwargs).length) hd hsv
         simp only
@@ -405,7 +429,7 @@ theorem filters_sim (hE : EnvRel venv eenv) (hB : BuiltinsRel venv eenv)
           simp only
           intro hrep
           obtain ⟨re, hf, hm⟩ := hF hrep
-          exact ⟨trK ++ [_] ++ [_], re, (hrunK.trans hrunB).fails hf, hm,
+          exact ⟨trK ++ [_] ++ [_], re, (hrunK.trans hrunB).fails hf.toI, hm,
             ((hwK.mono (Nat.le_refl _) (by omega)).append (Within.single (by omega) (by omega))).append
               (Within.single (by omega) (by omega)), by bnd⟩
         | ok v1 =>
@@ -418,7 +442,7 @@ theorem filters_sim (hE : EnvRel venv eenv) (hB : BuiltinsRel venv eenv)
               (trK ++ [base + (kwargsCode base loop kwargs).length]
                 ++ [base + (kwargsCode base loop kwargs).length + 1])
               (base + (kwargsCode base loop kwargs).length + 1 + 1) (st.push v1 _) :=
-            (hrunK.trans hrunB).trans hF
+            (hrunK.trans hrunB).trans hF.toI
           have hwpre : Within base (base + (kwargsCode base loop kwargs).length + 1 + 1
               + (filtersCode (base + (kwargsCode base loop kwargs).length + 1 + 1) loop rest).length)
               (trK ++ [base + (kwargsCode base loop kwargs).length]
@@ -444,14 +468,17 @@ theorem NodeOutcome.error_of_expr {loop : Option Nat} {err : Err} {base len base
     (hsub : ExprOutcome venv vm c lf (.error err) base1 len1 st1)
     (hrun : RunI venv vm c base st tr0 base1 st1) (hw0 : Within base (base + len) tr0)
     (hb : base ≤ base1) (hl : base1 + len1 ≤ base + len) (hlen : lf = true → tr0.length + len1 ≤ len) :
-    NodeOutcome venv vm c lf loop (.error err) base len st :=
-  ExprOutcome.error_of_sub hsub hrun hw0 hb hl hlen
+    NodeOutcome venv vm c lf loop (.error err) base len st := by
+  intro hrep
+  obtain ⟨tr, re, hf, hm, hw, hl1⟩ := hsub hrep
+  refine ⟨tr0 ++ tr, re, hrun.fails hf.toI, hm, hw0.append (hw.mono hb hl), ?_⟩
+  bnd
 
 theorem SigRun.prefix {loop : Option Nat} {sig : Sig} {base len base1 len1 : Nat} {st st1 st' : State}
     {tr0 tr1 tr2 : List Nat} (hpre : RunI venv vm c base st tr0 base1 st1)
-    (hsub : SigRunI venv vm c loop sig base1 len1 st1 tr1 st')
+    (hsub : SigRun venv vm c loop sig base1 len1 st1 tr1 st')
     (hpost : RunI venv vm c (base1 + len1) st' tr2 (base + len) st') :
-    SigRunI venv vm c loop sig base len st (tr0 ++ tr1 ++ (if sig = .normal then tr2 else [])) st' := by
+    SigRun venv vm c loop sig base len st (tr0 ++ tr1 ++ (if sig = .normal then tr2 else [])) st' := by
   cases sig with
   | normal => simpa [SigRun] using (hpre.trans hsub).trans hpost
   | brk =>
@@ -562,6 +589,7 @@ theorem for_enter (hE : EnvRel venv eenv) (hB : BuiltinsRel venv eenv)
   | ok tv =>
     rw [hrt] at IHt
     obtain ⟨trT, rgT, hrunT, hspT, hwT, _⟩ := IHt
+    have hrunT := hrunT.toI
     have hwT' : Within base (base + (forPre base loop key value target).length) trT :=
       hwT.mono (Nat.le_refl _) (by omega)
     have hS := startIterate_sim (compr := false) hentS ht st tv rgT hspT
@@ -569,21 +597,22 @@ theorem for_enter (hE : EnvRel venv eenv) (hB : BuiltinsRel venv eenv)
     cases hit : iterItems tv with
     | none =>
       rw [hit] at hS
-      exact ⟨trT ++ [_], hrunT.fails hS, hwT'.append (Within.single (by omega) (by omega))⟩
+      exact ⟨trT ++ [_], hrunT.fails hS.toI, hwT'.append (Within.single (by omega) (by omega))⟩
     | some items =>
       rw [hit] at hS
       simp only at hS ⊢
       by_cases hk : (key.isSome && !tv.isMap) = true
       · rw [if_pos hk] at hS ⊢
-        exact ⟨trT ++ [_], hrunT.fails hS, hwT'.append (Within.single (by omega) (by omega))⟩
+        exact ⟨trT ++ [_], hrunT.fails hS.toI, hwT'.append (Within.single (by omega) (by omega))⟩
       · rw [if_neg hk] at hS ⊢
         have hV := run_storeLocal (venv := venv) (vm := vm) hentV
           { st with scope := st.scope.pushLoop (ForLoop.new items false) }
           (ForLoop.new items false) st.scope.forLoops (by simp)
+        have hV := hV.toI
         simp only [setTopLoop_pushLoop] at hV
         cases key with
         | none =>
-          refine ⟨trT ++ [_] ++ [_], ((hrunT.trans hS).trans hV).cast ?_,
+          refine ⟨trT ++ [_] ++ [_], ((hrunT.trans hS.toI).trans hV).cast ?_,
             (hwT'.append (Within.single (by omega) (by omega))).append
               (Within.single (by omega) (by omega))⟩
           rw [hlenP]; simp only [keyStore, List.length_nil]; omega
@@ -592,9 +621,10 @@ theorem for_enter (hE : EnvRel venv eenv) (hB : BuiltinsRel venv eenv)
           have hK := run_storeLocal (venv := venv) (vm := vm) hcK.1
             { st with scope := st.scope.pushLoop ((ForLoop.new items false).storeLocalName value) }
             ((ForLoop.new items false).storeLocalName value) st.scope.forLoops (by simp)
+          have hK := hK.toI
           simp only [setTopLoop_pushLoop] at hK
           have hks : (keyStore (some k)).length = 1 := rfl
-          refine ⟨trT ++ [_] ++ [_] ++ [_], (((hrunT.trans hS).trans hV).trans hK).cast ?_,
+          refine ⟨trT ++ [_] ++ [_] ++ [_], (((hrunT.trans hS.toI).trans hV).trans hK).cast ?_,
             ((hwT'.append (Within.single (by omega) (by omega))).append
               (Within.single (by omega) (by omega))).append (Within.single (by omega) (by omega))⟩
           rw [hlenP]; omega
@@ -616,7 +646,7 @@ theorem LoopCtx.withSc {inLoop : Bool} {loop : Option Nat} {st : State} {est' : 
 
 /-- the iterable, the loop set-up and the loop -/
 theorem for_head_sim (hE : EnvRel venv eenv) (hB : BuiltinsRel venv eenv)
-    (ht : reportTargetOk venv vm c = true) (fuel : Nat) (H : NodeSimAt venv vm c lf eenv fuel)
+    (ht : reportTargetOk venv vm c = true) (fuel : Nat) (H : NodeSimAt venv vm c lf Inc eenv fuel)
     {target : Expr} (htarget : InCore lf target) {body : List Node}
     (hbody : ∀ n ∈ body, InCoreNode lf Inc true n)
     (key : Option String) (value : String) (base : Nat) (loop : Option Nat) (st : State)
@@ -675,7 +705,9 @@ theorem for_head_sim (hE : EnvRel venv eenv) (hB : BuiltinsRel venv eenv)
           simp
 
 theorem node_step (hE : EnvRel venv eenv) (hB : BuiltinsRel venv eenv)
-    (ht : reportTargetOk venv vm c = true) (fuel : Nat) (H : NodeSimAt venv vm c lf eenv fuel) :
+    (hT : TemplatesRel venv eenv lf Inc)
+    (ht : reportTargetOk venv vm c = true) (hov : vm.autoescapeOverride = none) (fuel : Nat)
+    (H : NodeSimAt venv vm c lf Inc eenv fuel) (HA : NodeSimAll venv lf Inc eenv fuel) :
     ∀ (inLoop : Bool) (n : Node), InCoreNode lf Inc inLoop n →
     ∀ (base : Nat) (loop : Option Nat) (st : State) (est : Tera.St), StSim est st →
     LoopCtx inLoop loop st → CodeAt c base (nodeCode base loop n) →
@@ -709,6 +741,7 @@ theorem node_step (hE : EnvRel venv eenv) (hB : BuiltinsRel venv eenv)
     | ok v =>
       rw [hr] at IH
       obtain ⟨tr1, rg1, hrun1, hsp1, hw1, hl1⟩ := IH
+      have hrun1 := hrun1.toI
       have hW := writeTop_sim hent hE ht st est hst v rg1 hsp1
       simp only
       cases hw : writeValue eenv vm.autoescape est v with
@@ -741,6 +774,7 @@ theorem node_step (hE : EnvRel venv eenv) (hB : BuiltinsRel venv eenv)
     | ok v =>
       rw [hr] at IH
       obtain ⟨tr1, rg1, hrun1, hsp1, hw1, hl1⟩ := IH
+      have hrun1 := hrun1.toI
       have hS := run_set (venv := venv) (vm := vm) hent st v rg1
       simp only
       refine ⟨tr1 ++ [base + (exprCode base loop e).length],
@@ -785,7 +819,9 @@ theorem node_step (hE : EnvRel venv eenv) (hB : BuiltinsRel venv eenv)
       | ok a =>
         rw [hr1] at IH1
         obtain ⟨tr1, rg1, hrun1, hsp1, hw1, hl1⟩ := IH1
+        have hrun1 := hrun1.toI
         have hP := run_popJumpIfFalse (venv := venv) (vm := vm) hent st a rg1
+        have hP := hP.toI
         simp only
         cases hta : a.isTruthy with
         | true =>
@@ -822,7 +858,9 @@ theorem node_step (hE : EnvRel venv eenv) (hB : BuiltinsRel venv eenv)
       | ok a =>
         rw [hr1] at IH1
         obtain ⟨tr1, rg1, hrun1, hsp1, hw1, hl1⟩ := IH1
+        have hrun1 := hrun1.toI
         have hP := run_popJumpIfFalse (venv := venv) (vm := vm) hent2 st a rg1
+        have hP := hP.toI
         simp only
         cases hta : a.isTruthy with
         | true =>
@@ -830,7 +868,7 @@ theorem node_step (hE : EnvRel venv eenv) (hB : BuiltinsRel venv eenv)
           have IH2 := H.nodes _ body hbody _ loop st est hst hctx hc3
           exact IH2.tail (hrun1.trans hP)
             ((hw1.mono (Nat.le_refl _) (by omega)).append (Within.single (by omega) (by omega)))
-            (fun st' => (run_jump hent4 st').cast (by omega))
+            (fun st' => (run_jump hent4 st').toI.cast (by omega))
             (Within.single (by omega) (by omega)) (by omega) (by omega) (by bnd)
         | false =>
           simp only [hta, Bool.false_eq_true, if_false] at hP ⊢
@@ -838,6 +876,67 @@ theorem node_step (hE : EnvRel venv eenv) (hB : BuiltinsRel venv eenv)
           exact IH3.tail (tr2 := []) (hrun1.trans hP)
             ((hw1.mono (Nat.le_refl _) (by omega)).append (Within.single (by omega) (by omega)))
             (fun st' => (RunI.nil _ _ _ st').cast (by omega)) Within.nil (by omega) (by omega) (by bnd)
+  | @«include» _ name hlf hinc =>
+    intro base loop st est hst hctx hcode
+    have hnb : ∀ {n m : Nat}, lf = true → n ≤ m := fun h => by rw [hlf] at h; cases h
+    simp only [nodeCode, CodeAt] at hcode
+    obtain ⟨⟨vi, sps, hv, hc, _⟩, _⟩ := hcode
+    simp only [sp, Pipeline.vinstr, Option.some.injEq] at hv
+    subst hv
+    simp only [execNode, nodeCode, List.length_singleton]
+    have hrel := hT.rel name hinc
+    cases het : eenv.template name with
+    | none =>
+      rw [het] at hrel
+      simp only
+      exact fun _ => ⟨[base], .templateNotFound,
+        FailsI.here hc (by intro rec; simp only [step, stepInclude, hrel]), rfl,
+        Within.single (Nat.le_refl _) (by omega), hnb⟩
+    | some t =>
+      rw [het] at hrel
+      obtain ⟨tpl, vcode, hvt, hchunk, hemb, hae, hcore⟩ := hrel
+      simp only
+      have hcodeI : CodeAt tpl.chunk 0 (nodesCode 0 none t.nodes) := by
+        rw [hchunk]
+        have := codeAt_of_embed (name := tpl.name) (pre := []) (post := []) hemb
+        simpa using this
+      have htI : reportTargetOk venv (inclVm vm tpl) tpl.chunk = true := by
+        simp [reportTargetOk, inclVm, hchunk]
+      have hstI : StSim { scope := Scope.included est.scope, out := [], captures := [] }
+          (includeState st) := ⟨hst.1.included, rfl, rfl⟩
+      have haeI : (inclVm vm tpl).autoescape = t.autoescape := by
+        simp [VmCtx.autoescape, inclVm, hov, hae]
+      have IH := (HA (inclVm vm tpl) tpl.chunk htI hov).nodes false t.nodes hcore 0 none
+        (includeState st) { scope := Scope.included est.scope, out := [], captures := [] } hstI
+        (fun h => by cases h) hcodeI
+      rw [haeI] at IH
+      have hlenI : (nodesCode 0 none t.nodes).length = vcode.length := (embed_length hemb).symm
+      cases hr : execNodes fuel eenv t.autoescape
+          { scope := Scope.included est.scope, out := [], captures := [] } t.nodes with
+      | error err =>
+        rw [hr] at IH
+        intro hrep
+        obtain ⟨trN, re, hf, hm, _, _⟩ := IH hrep
+        exact ⟨[base], re, FailsI.inclFails hc hvt hf, hm, Within.single (Nat.le_refl _) (by omega), hnb⟩
+      | ok p =>
+        obtain ⟨est', sig⟩ := p
+        rw [hr] at IH
+        cases sig with
+        | brk => simp only; intro h; simp [reportable] at h
+        | cont => simp only; intro h; simp [reportable] at h
+        | normal =>
+          obtain ⟨trN, scN, _, _, hrunN, _, _⟩ := IH
+          have hrunN' : RunI venv (inclVm vm tpl) tpl.chunk 0 (includeState st) trN
+              (0 + (nodesCode 0 none t.nodes).length) (withSc (includeState st) est' scN) := hrunN
+          have hend : tpl.chunk.code[0 + (nodesCode 0 none t.nodes).length]? = none := by
+            rw [hchunk, hlenI]; simp
+          simp only
+          refine ⟨[base], st.scope, ?_, rfl, ?_, Within.single (Nat.le_refl _) (by omega), hnb⟩
+          · show ScopeSim (est.write est'.out).scope st.scope
+            rw [St.write_scope]; exact hst.1
+          · show RunI venv vm c base st [base] (base + 1) _
+            rw [withSc_write hst]
+            exact RunI.incl hc hvt hrunN' hend (RunI.nil _ _ _ _)
   | «break» =>
     intro base loop st est hst hctx hcode
     simp only [nodeCode, CodeAt] at hcode
@@ -861,7 +960,7 @@ theorem node_step (hE : EnvRel venv eenv) (hB : BuiltinsRel venv eenv)
       refine ⟨[base], st.scope, hst.1, rfl, ⟨idx, rfl, ?_⟩,
         Within.single (Nat.le_refl _) (by omega), by bnd⟩
       rw [withSc_self hst]
-      exact run_jump hcode.1 st
+      exact (run_jump hcode.1 st).toI
 
   | @filterSection _ name kwargs body hkw hnd hbody =>
     intro base loop st est hst hctx hcode
@@ -935,12 +1034,14 @@ theorem node_step (hE : EnvRel venv eenv) (hB : BuiltinsRel venv eenv)
           | ok kw =>
             rw [hr1] at IHk
             obtain ⟨trK, stk, hrunK, hstk, hwK, hl1⟩ := IHk
+            have hrunK := hrunK.toI
             have hnames := evalKwargs_names eenv est1.scope kwargs fuel kw hr1
             have hd : (kw.map (·.1)).Nodup := by rw [hnames]; exact hnd
             have hlen : kwargs.length = kw.length := by
               have := congrArg List.length hnames; simpa using this.symm
             have hrunBM := run_buildKwargs (venv := venv) (vm := vm) hentB
               ((withSc st { est1 with captures := restCaps } sc1).push (.str true buf) _) kw stk hlen hstk
+            have hrunBM := hrunBM.toI
             have hF := filter_sim hentF hB ht (withSc st { est1 with captures := restCaps } sc1)
               (.str true buf) _ kw
               (base + 1 + (nodesCode (base + 1) loop body).length + 1
@@ -961,7 +1062,7 @@ theorem node_step (hE : EnvRel venv eenv) (hB : BuiltinsRel venv eenv)
               rw [hb] at hF
               intro hrep
               obtain ⟨re, hf, hm⟩ := hF hrep
-              exact ⟨_, re, ((hpre.trans hrunK).trans hrunBM).fails hf, hm,
+              exact ⟨_, re, ((hpre.trans hrunK).trans hrunBM).fails hf.toI, hm,
                 hwpre2.append (Within.single (by omega) (by omega)), by bnd⟩
             | ok r =>
               rw [hb] at hF
@@ -973,13 +1074,13 @@ theorem node_step (hE : EnvRel venv eenv) (hB : BuiltinsRel venv eenv)
                 rw [hw] at hW
                 obtain ⟨re, hf, hm⟩ := hW
                 simp only [Except.map]
-                exact fun _ => ⟨_, re, (((hpre.trans hrunK).trans hrunBM).trans hF).fails hf, hm,
+                exact fun _ => ⟨_, re, (((hpre.trans hrunK).trans hrunBM).trans hF.toI).fails hf, hm,
                   (hwpre2.append (Within.single (by omega) (by omega))).append
                     (Within.single (by omega) (by omega)), by bnd⟩
               | ok est3 =>
                 rw [hw] at hW
                 simp only [Except.map]
-                have hrunAll := (((hpre.trans hrunK).trans hrunBM).trans hF).trans hW.1
+                have hrunAll := (((hpre.trans hrunK).trans hrunBM).trans hF.toI).trans hW.1
                 have hsc3 : ScopeSim est3.scope sc1 := by rw [hW.2]; exact hsc1
                 exact ⟨_, sc1, hsc3, hends1, hrunAll.cast (by omega),
                   (hwpre2.append (Within.single (by omega) (by omega))).append
@@ -1100,6 +1201,7 @@ theorem node_step (hE : EnvRel venv eenv) (hB : BuiltinsRel venv eenv)
         have hrunH := hrunH0.cast (Nat.add_assoc _ _ _).symm
         simp only [forTail, List.isEmpty_nil, Bool.not_true, Bool.false_and, Bool.false_eq_true, if_false]
         have hE1 := run_popLoop (venv := venv) (vm := vm) hentE (withSc st est1 sc1)
+        have hE1 := hE1.toI
         refine ⟨trH ++ [base + (forPre base loop key value target).length
             + (forLoopCode (base + (forPre base loop key value target).length) body).length],
           sc1.popLoop, hsc1.popLoop, ?_, (hrunH.trans hE1).cast (by omega),
@@ -1139,14 +1241,17 @@ theorem node_step (hE : EnvRel venv eenv) (hB : BuiltinsRel venv eenv)
             simp only [forTail, hlE, hfe, Bool.not_false, Bool.true_and]
             have hD := run_storeDidNotIterate (venv := venv) (vm := vm) hentD
               (withSc st est1 sc1) lv lvs hlV
+            have hD := hD.toI
             have hO := run_popLoop (venv := venv) (vm := vm) hentO
               ((withSc st est1 sc1).push (.bool (!lv.iterated))
                 ((base + (forPre base loop key value target).length + (forLoopCode (base + (forPre base loop key value target).length) body).length),
                  (base + (forPre base loop key value target).length + (forLoopCode (base + (forPre base loop key value target).length) body).length)))
+            have hO := hO.toI
             have hP := run_popJumpIfFalse (venv := venv) (vm := vm) hentJ
               (withSc st { est1 with scope := est1.scope.popLoop } sc1.popLoop) (.bool (!lv.iterated))
               ((base + (forPre base loop key value target).length + (forLoopCode (base + (forPre base loop key value target).length) body).length),
                (base + (forPre base loop key value target).length + (forLoopCode (base + (forPre base loop key value target).length) body).length))
+            have hP := hP.toI
             have hends2 : ends sc1.popLoop.forLoops = ends st.scope.forLoops := by
               rw [forLoops_popLoop]; exact hends1
             have hrun3 : RunI venv vm c base st
@@ -1182,7 +1287,7 @@ theorem node_step (hE : EnvRel venv eenv) (hB : BuiltinsRel venv eenv)
                 (LoopCtx.withSc hctx hends2) hcEl'
               exact NodeOutcome.seq hlf IHe (hrun3.cast (by omega)) hends2 hw3 (by omega) (by omega)
 
-theorem nodes_step (fuel : Nat) (H : NodeSimAt venv vm c lf eenv fuel) :
+theorem nodes_step (fuel : Nat) (H : NodeSimAt venv vm c lf Inc eenv fuel) :
     ∀ (inLoop : Bool) (ns : List Node), (∀ n ∈ ns, InCoreNode lf Inc inLoop n) →
     ∀ (base : Nat) (loop : Option Nat) (st : State) (est : Tera.St), StSim est st →
     LoopCtx inLoop loop st → CodeAt c base (nodesCode base loop ns) →
@@ -1251,7 +1356,7 @@ theorem nodes_step (fuel : Nat) (H : NodeSimAt venv vm c lf eenv fuel) :
         obtain ⟨idx, hl, hr⟩ := hrun1
         exact ⟨tr1, sc1, hsc1, hends1, ⟨idx, hl, hr⟩, hw1.mono (Nat.le_refl _) (by omega), by bnd⟩
 
-theorem for_step (fuel : Nat) (H : NodeSimAt venv vm c lf eenv fuel) :
+theorem for_step (fuel : Nat) (H : NodeSimAt venv vm c lf Inc eenv fuel) :
     ∀ (body : List Node), (∀ n ∈ body, InCoreNode lf Inc true n) →
     ∀ (startIdx : Nat) (st : State) (est : Tera.St), StSim est st →
     CodeAt c startIdx (forLoopCode startIdx body) →
@@ -1286,7 +1391,7 @@ theorem for_step (fuel : Nat) (H : NodeSimAt venv vm c lf eenv fuel) :
         refine ⟨[startIdx], st.scope, ?_, hst.1, rfl, by rw [hlV]; simp,
           Within.single (Nat.le_refl _) (by rw [hlen]; omega)⟩
         rw [withSc_self hst]
-        exact (run_iterate_over hentI st lv lvs hlV h2).cast (by rw [hlen]; omega)
+        exact (run_iterate_over hentI st lv lvs hlV h2).toI.cast (by rw [hlen]; omega)
       · simp only [h1]
         have hst1 : StSim { est with scope := est.scope.setTopLoop a }
             { st with scope := st.scope.setTopLoop b } :=
@@ -1297,7 +1402,7 @@ theorem for_step (fuel : Nat) (H : NodeSimAt venv vm c lf eenv fuel) :
           fun _ => ⟨rfl, by rw [hl1]; simp⟩
         have hrunI : RunI venv vm c startIdx st [startIdx] (startIdx + 1)
             { st with scope := st.scope.setTopLoop b } :=
-          run_iterate_next hentI st lv b lvs hlV h2
+          (run_iterate_next hentI st lv b lvs hlV h2).toI
         have hwI : Within startIdx (startIdx + (forLoopCode startIdx body).length) [startIdx] :=
           Within.single (Nat.le_refl _) (by rw [hlen]; omega)
         have IHb := H.nodes true body hbody (startIdx + 1) (some startIdx)
@@ -1352,7 +1457,7 @@ theorem for_step (fuel : Nat) (H : NodeSimAt venv vm c lf eenv fuel) :
                 (startIdx + 1 + (nodesCode (startIdx + 1) (some startIdx) body).length)
                 (withSc st est' scB) := hrunB
             exact recK ([startIdx] ++ trB ++ [_])
-              ((hrunI.trans hrunB').trans (run_jump hentJ _))
+              ((hrunI.trans hrunB').trans (run_jump hentJ _).toI)
               ((hwI.append hwB').append (Within.single (by omega) (by rw [hlen]; omega)))
           | cont =>
             simp only
@@ -1377,12 +1482,13 @@ theorem for_step (fuel : Nat) (H : NodeSimAt venv vm c lf eenv fuel) :
             rw [hlb', hlV]
             simpa [ends] using hendsB.2
 
-theorem nodeSimAt (hE : EnvRel venv eenv) (hB : BuiltinsRel venv eenv)
-    (ht : reportTargetOk venv vm c = true) :
-    ∀ fuel, NodeSimAt venv vm c lf eenv fuel := by
+theorem nodeSimAll (hE : EnvRel venv eenv) (hB : BuiltinsRel venv eenv)
+    (hT : TemplatesRel venv eenv lf Inc) :
+    ∀ fuel, NodeSimAll venv lf Inc eenv fuel := by
   intro fuel
   induction fuel with
   | zero =>
+    intro vm c _ _
     refine ⟨?_, ?_, ?_⟩
     · intro _ n _ base loop st est _ _ _
       simp only [execNode]
@@ -1393,27 +1499,38 @@ theorem nodeSimAt (hE : EnvRel venv eenv) (hB : BuiltinsRel venv eenv)
     · intro body _ startIdx st est _ _
       simp only [execFor]
       intro h; simp [reportable] at h
-  | succ fuel ih => exact ⟨node_step hE hB ht fuel ih, nodes_step fuel ih, for_step fuel ih⟩
+  | succ fuel ih =>
+    intro vm c ht hov
+    exact ⟨node_step hE hB hT ht hov fuel (ih vm c ht hov) ih, nodes_step fuel (ih vm c ht hov),
+      for_step fuel (ih vm c ht hov)⟩
+
+theorem nodeSimAt (hE : EnvRel venv eenv) (hB : BuiltinsRel venv eenv)
+    (hT : TemplatesRel venv eenv lf Inc)
+    (ht : reportTargetOk venv vm c = true) (hov : vm.autoescapeOverride = none) :
+    ∀ fuel, NodeSimAt venv vm c lf Inc eenv fuel :=
+  fun fuel => nodeSimAll hE hB hT fuel vm c ht hov
 
 /-- the simulation theorem for one statement -/
 theorem node_sim (hE : EnvRel venv eenv) (hB : BuiltinsRel venv eenv)
-    (ht : reportTargetOk venv vm c = true) (fuel : Nat) (inLoop : Bool)
+    (hT : TemplatesRel venv eenv lf Inc)
+    (ht : reportTargetOk venv vm c = true) (hov : vm.autoescapeOverride = none) (fuel : Nat) (inLoop : Bool)
     (n : Node) (hn : InCoreNode lf Inc inLoop n) (base : Nat) (loop : Option Nat) (st : State)
     (est : Tera.St) (hst : StSim est st) (hctx : LoopCtx inLoop loop st)
     (hcode : CodeAt c base (nodeCode base loop n)) :
     NodeOutcome venv vm c lf loop (execNode fuel eenv vm.autoescape est n) base
       (nodeCode base loop n).length st :=
-  (nodeSimAt hE hB ht fuel).node inLoop n hn base loop st est hst hctx hcode
+  (nodeSimAt hE hB hT ht hov fuel).node inLoop n hn base loop st est hst hctx hcode
 
 /-- the simulation theorem for a statement list -/
 theorem nodes_sim (hE : EnvRel venv eenv) (hB : BuiltinsRel venv eenv)
-    (ht : reportTargetOk venv vm c = true) (fuel : Nat) (inLoop : Bool)
+    (hT : TemplatesRel venv eenv lf Inc)
+    (ht : reportTargetOk venv vm c = true) (hov : vm.autoescapeOverride = none) (fuel : Nat) (inLoop : Bool)
     (ns : List Node) (hns : ∀ n ∈ ns, InCoreNode lf Inc inLoop n) (base : Nat) (loop : Option Nat)
     (st : State) (est : Tera.St) (hst : StSim est st) (hctx : LoopCtx inLoop loop st)
     (hcode : CodeAt c base (nodesCode base loop ns)) :
     NodeOutcome venv vm c lf loop (execNodes fuel eenv vm.autoescape est ns) base
       (nodesCode base loop ns).length st :=
-  (nodeSimAt hE hB ht fuel).nodes inLoop ns hns base loop st est hst hctx hcode
+  (nodeSimAt hE hB hT ht hov fuel).nodes inLoop ns hns base loop st est hst hctx hcode
 
 end
 end Tera.Refine
